@@ -4,6 +4,7 @@ import Toq.Proofs.XorMult
 import Toq.Proofs.XorNpa1
 import Toq.Proofs.XorClassical
 import Toq.Proofs.XorInit
+import Toq.Proofs.XorFast
 import Toq.Proofs.XorRepLower
 import Toq.Proofs.XorRepPovm
 /-!
@@ -340,6 +341,16 @@ theorem xor_classical_le_quantum {m n k : Nat} (D : Nat → Nat → Rat) (a b : 
   rw [← e, signBias_cast, ← hv]
   exact signs_le_dual _ _ _ _ _ (castV_sign s hst.1) (castV_sign t hst.2) hZ
 
+/-- **One-sided enumeration.**  Enumerating only Alice's `2^m` sign vectors and letting Bob answer optimally
+(`max_s Σ_y |Σ_x s_x D[x,y]|` — the scheme of `NonlocalGame.classical_value`: one player's answer functions are enumerated, the
+other's best answer is taken per question) gives, for all sizes and cost matrices, the same number as the enumeration of all
+`2^(m+n)` sign pairs; hence `xorClassicalValueBR = Σπ/2 + bias/2` is the classical value of every XOR game with a 0/1
+predicate.  This is the oracle the driver uses (`c08_classical`), fast enough for games with ≥ 10 questions per side. -/
+theorem xor_classical_one_sided (m n : Nat) (D : Nat → Nat → Rat) (prob : Nat → Nat → Rat) (pred : Nat → Nat → Nat) :
+    xorClassicalBiasBR m n D = xorClassicalBias m n D ∧
+    ((∀ x y, x < m → y < n → pred x y < 2) → xorClassicalValueBR m n prob pred = xorClassicalValue m n prob pred) :=
+  ⟨xorClassicalBiasBR_eq m n D, xorClassicalValueBR_eq m n prob pred⟩
+
 /-- **`XORGame.classical_value` as the code computes it.**  The method is `to_nonlocal_game().classical_value()`; the mirror of
 that composition (`nlgPred`, then `NonlocalGame.classical_value`: scaled copy, role swap when Alice has fewer strategies,
 transposes, `process_iteration` with best response per question, running maximum) returns, for all sizes, distributions and
@@ -571,6 +582,9 @@ example : xorClassicalBias 2 2 (dMat chshProb chshPred) = 1 / 2 := by decide +ke
 example : xorClassicalValue 2 2 chshProb chshPred = 3 / 4 := by decide +kernel
 
 example : xorClassicalCall 2 2 1 chshProb chshPred = some (3 / 4) := by decide +kernel
+
+example : xorClassicalBiasBR 2 2 (dMat chshProb chshPred) = 1 / 2 ∧ xorClassicalValueBR 2 2 chshProb chshPred = 3 / 4 := by
+  decide +kernel
 
 example : xorInit 2 2 2 2 chshProb none = .ok (1 / 281474976710656) ∧ xorInit 2 2 2 3 chshProb none = .sizeMismatch
     ∧ xorInit 2 2 2 2 (fun x y => if x = 0 ∧ y = 0 then -1 / 4 else if x = 1 ∧ y = 1 then 3 / 4 else 1 / 4) none = .negative
